@@ -28,19 +28,9 @@ Definition exceptions : list exc := [
   (* GAM.score -> _estimate_r2: y and weights are never validated, lengths never compared *)
   (* PoissonGAM.predict: exposure only cast and length-checked *)
   (* GAM.sample: with n_bootstraps = 1 the loop that would refit (and validate) never runs *)
-  mk_exc S8b None "GAM" "sample" AY KNonFinite None true;
-  mk_exc S8b None "GAM" "sample" AY KLen None true;
-  mk_exc S8b None "GAM" "sample" AY KDomain None true;
-  mk_exc S8b None "GAM" "sample" AW KNonFinite None true;
-  mk_exc S8b None "GAM" "sample" AW KLen None true;
-  mk_exc S8b None "GAM" "sample" AX KLen None true;
   (* gridsearch on an unfitted model: _validate_data_dep_params(X) reads X.shape and compiles the terms first *)
   (* loglikelihood never compares len(X) with len(y) *)
   (* ExpectileGAM.fit_quantile on a fitted model: (predict(X) > y).mean() before any validation of y *)
-  mk_exc S17 None "ExpectileGAM" "fit_quantile" AY KNonFinite None true;
-  mk_exc S17 None "ExpectileGAM" "fit_quantile" AY KLen None true;
-  mk_exc S17 None "ExpectileGAM" "fit_quantile" AY KDomain None true;
-  mk_exc S17 None "ExpectileGAM" "fit_quantile" AX KLen None true;
   (* PoissonGAM._exposure_to_weights: y.ravel() on the raw argument (list / tuple -> AttributeError) *)
   (* LogisticGAM.accuracy / score: check_X_y(mu, y) runs after mu = predict_mu(X) *)
   mk_exc L1 None "LogisticGAM" "accuracy" AX KLen None true;
